@@ -28,6 +28,8 @@ class Stop(BaseException):
     """Stop exploring (budget / enough violations)."""
 
 
+import os as _os
+_SLOWLOG = _os.environ.get('SYMX_SLOWLOG')
 RNE = z3.RNE()
 F64 = z3.Float64()
 
@@ -156,6 +158,10 @@ class Engine:
         dt = time.time() - t
         self.tq += dt
         self.nq += 1
+        if _SLOWLOG and dt > 0.05:
+            with open(_SLOWLOG, 'a') as f:
+                f.write('---- %.3fs %s n=%d\n%s\n' % (
+                    dt, r, len(chosen), s.sexpr()[:6000]))
         if r == z3.unknown:
             raise Unsupported('solver answered unknown (%s) after %.1fs'
                               % (s.reason_unknown(), dt))
@@ -376,8 +382,6 @@ class Engine:
     def _violate(self, label, model, info):
         self.violations.append(
             Violation(label, model, self._cur_key(), info))
-        if len(self.violations) >= self.max_violations:
-            raise Stop('violations')
 
     # ------------------------------------------------------------ exploration
     def explore(self, fn, forced=(), split_depth=None, on_path=None,
@@ -483,9 +487,9 @@ def guard(fn):
             return fn(*a, **k)
         except (Unsupported, PathAbort, PathCut, EngineError, Stop):
             raise
-        except _PASS as e:
-            raise
         except Exception as e:       # noqa
+            if getattr(e, '_symx_deliberate', False):
+                raise
             if ENG is not None:
                 ENG.proxy_error = '%s in %s: %s' % (
                     type(e).__name__, fn.__qualname__, e)
